@@ -82,6 +82,27 @@ claim("C16",
  "static analysis: E1 result/sharing summaries, SSA store-provenance rule for Content slots, branch-shape rule in AddChild, static-reach field-read census",
  "DESIGN.md §3 C16")
 
+claim("C05",
+ "Deliberately narrow static check of the YAML round trip: the yaml.Node attribute set read while decoding equals the set written while encoding (and likewise for CandidateNode attributes), computed from field accesses in the four conversion functions; the two style maps are mutually inverse on the named styles with numerically equal constants and an identity fall-through; Copy() carries every CandidateNode field; the document-separator marker is one literal. Necessary conditions: an attribute dropped in either direction is lost for every document carrying it. Everything that depends on yaml.v3's emitter and on leading-content pre-processing is NOT decided.",
+ TB,
+ "static analysis: field read/write set comparison over SSA, constant-table bijection check on the AST, struct-literal coverage, literal agreement",
+ "DESIGN.md §3 C05")
+claim("C06",
+ "Static check of the YAML<->JSON conversion paths: every json encoder reaches Encode only after SetEscapeHTML(false) (CFG must-pass-through); JSON scalars are decoded with UseNumber and no unsigned->signed conversion is applied to parsed integers; only the printer invokes Encoder.Encode, after testing CanHandleAliases and exploding on the negative branch; no Go map is a decode target or ranged over; MarshalJSON returns the scalar conversion error. Necessary conditions of value-exactness; string escaping and float formatting are delegated to goccy/go-json and not decided.",
+ TB,
+ "static analysis: CFG must-pass-through, decode-target type census, who-may-call, dominator-guard recognition",
+ "DESIGN.md §3 C06")
+claim("C13",
+ "Narrow static check over the three read routes (traverse, explode, JSON encode): every site that classifies a map entry as a merge key uses the same predicate (tag !!merge); non-alias-capable encoders get exploded input; an anchor definition unconditionally replaces the previous one of that name; overrideEntry explodes the value on every successful path. Necessary conditions of route agreement; which source wins (explicit vs merged, list order) is a value-level fact and NOT decided.",
+ TB,
+ "static analysis: sibling-predicate agreement over SSA comparisons, control-dependence of a map update, CFG must-pass-through",
+ "DESIGN.md §3 C13")
+claim("C14",
+ "Narrow static check of the other codecs: the Lua escape table (constants of the strings.NewReplacer call) maps every control byte, DEL, quotes and backslash to its decimal or named escape; for each Format record the encoder and decoder factories read the same Configured*Preferences; every codec operator the lexer can emit names a Format whose needed factory is non-nil; codec functions drop no error and flush their writers. Value fidelity of the codecs is delegated to third-party libraries and NOT decided.",
+ TB,
+ "static analysis: constant-table verification, registry/lexer-table cross-check (AST abstract evaluation), SSA error-discipline and flush pairing",
+ "DESIGN.md §3 C14")
+
 na = {
  "C01": "whole-property quantifies over runtime values of all programs x documents; no structural clause with detection value beyond what C09/C11 already check (DESIGN.md §3 C01)",
 }
